@@ -418,6 +418,12 @@ func (h *HistGen) next() *Op {
 	if g.Chance(0.08) {
 		c = h.pickColl()
 	}
+	if h.cfg.AllowClose && g.Chance(0.12) {
+		if g.Chance(0.25) {
+			return &Op{Kind: "Close"}
+		}
+		return &Op{Kind: "Reopen"}
+	}
 	r := g.Intn(100)
 	switch {
 	case r < 16: // insert
@@ -625,7 +631,7 @@ func runHistory(g *Gen, cfg HistCfg, backend string, dumpEvery bool) (*HistResul
 		r := op.exec(env)
 		h.observe(op, r, env)
 		var dump T
-		if dumpEvery || isWrite(op.Kind) || i == n-1 {
+		if (dumpEvery || isWrite(op.Kind) || i == n-1) && !env.closed {
 			dump, err = dumpStore(env.st.inner)
 			if err != nil {
 				dump = []T{int64(95), TS(err.Error())}
